@@ -476,8 +476,15 @@ class WsgiApplication(HttpBase):
         # here before serialization as the user function can also set output
         # protocol. Is there a better way?
         if is_generator:
-            first_obj = next(g)
-            p_ctx.out_object = ( chain((first_obj,), g), )
+            try:
+                first_obj = next(g)
+
+            except StopIteration:
+                # nothing was yielded: the exhausted generator is the result.
+                pass
+
+            else:
+                p_ctx.out_object = ( chain((first_obj,), g), )
 
         if p_ctx.transport.resp_code is None:
             p_ctx.transport.resp_code = HTTP_200
